@@ -516,5 +516,12 @@ pub fn get_best_move_until_stop(
         }
     }
 
+    if found_move.is_none() {
+        // Stopped before the first iteration finished: still answer with a legal move
+        let mut moves = ArrayVec::new();
+        game.clone().get_moves(&mut moves, true);
+        found_move = moves.first().copied();
+    }
+
     found_move
 }
